@@ -11,7 +11,7 @@ if os.path.exists(mp):
         if len(p) >= 4:
             matrix.setdefault(p[0], {})[p[1]] = p[2:]
 L = ['## s12  Seeded changes: which checks catch which', '',
-     'Each change under `/verif/seeded/<id>/` (`_s*`: first round, `_r*`: second round, `_t*`: third round, `_u*`: fourth round, `_v*`: fifth round, `_w*`: sixth round, each launched after the checks had been strengthened on the previous one) was written by a fresh sub-agent that saw only the text of one property and its own scratch',
+     'Each change under `/verif/seeded/<id>/` (`_s*`: first round, `_r*`: second round, `_t*`: third round, `_u*`: fourth round, `_v*`: fifth round, `_w*`: sixth round, `_x*`: seventh round, each launched after the checks had been strengthened on the previous one) was written by a fresh sub-agent that saw only the text of one property and its own scratch',
      'worktree of `/repo` (nothing from `/verif`); it compiles, passes the repository\'s test binaries (`tools/run_suite.sh`), and comes with a',
      'demonstration program that fails with the change and passes without it - all re-confirmed by `tools/confirm_seed.sh` before the change',
      'was kept (`confirm.json`).  The checks are run against a scratch copy of `/repo/include` with the patch applied (`tools/mut.sh`,',
@@ -41,8 +41,9 @@ L += ['', 'Summary.  Round 1 (38 changes): 31 caught by the first run of the tar
       'Round 5 (12 changes written, 3 exact duplicates of earlier ones dropped, 9 kept; hint: rarely used API surface and interactions between two calls): 7 of 9 caught at the first run; missed: C11_v1',
       '(update keeping shape and both end breakpoints) and C01_v1 (overload switch on a built object) - an operation and two routes added.',
       'Round 6 (12 changes; the agents were given the list of ideas already used, to force new ones): 11 caught at the first run; C08_w1 missed by C08 (needs a non-ascending executor: C12\'s territory, C12 catches it)',
-      '- C08 now also runs under a descending-order executor.  All 107 are caught now',
-      '(`seeded/own.tsv`: every seed against the check of the property it targets, quick tier in sweep mode; rounds 1-3 were run before the last extensions of C01, C08, C11 and C16, which only added obligations).', '']
+      '- C08 now also runs under a descending-order executor.',
+      'Round 7 (8 changes, same instructions): all 8 caught at the first run (one through a task error instead of a VIOLATION line - fixed).  All 115 are caught now',
+      '(`seeded/own.tsv`: every seed of rounds 1-6 against the check of the property it targets, quick tier in sweep mode; rounds 1-3 were run before the last extensions of C01, C08, C11 and C16, which only added obligations; round 7 was run with `tools/mut.sh` only).', '']
 if matrix:
     allchecks = sorted({c for mx in matrix.values() for c in mx})
     L += ['Cross matrix (seeds for which the full row was run: every claimed check, quick tier; `x` = exit 1 with at least one VIOLATION line, `u` = exit 1 with only UNCONFIRMED/crash lines, `.` = exit 0):', '',
